@@ -314,8 +314,17 @@ func (c *Corpus) runGroup(group string) (string, error) {
 	if ctxT.Err() != nil {
 		crash = "timeout"
 		out.WriteString("\ngoverter did not terminate within 90s")
-	} else if err != nil && (strings.Contains(out.String(), "panic: ") || strings.Contains(out.String(), "goroutine 1 [")) {
-		crash = "panic"
+	} else if err != nil {
+		o := out.String()
+		code := -1
+		if ee, ok := err.(*exec.ExitError); ok {
+			code = ee.ExitCode()
+		}
+		// a Go run-time crash (panic, fatal error such as stack overflow) exits with status 2 and a goroutine dump;
+		// goverter's own diagnostics exit with status 1
+		if strings.Contains(o, "panic: ") || strings.Contains(o, "fatal error: ") || strings.Contains(o, "goroutine 1 [") || (code == 2 && strings.Contains(o, "goroutine ")) {
+			crash = "panic"
+		}
 	}
 	c.mu.Lock()
 	defer c.mu.Unlock()
